@@ -37,6 +37,11 @@ def rand_name(r):
     if k < 0.85:
         return "".join(chr(r.choice([r.randrange(32, 127), r.randrange(160, 256), r.randrange(0x100, 0x800), r.randrange(0x800, 0xD800), r.randrange(0x10000, 0x10FFFF)]))
                        for _ in range(r.randrange(1, 6)))
+    if k < 0.92:
+        # whitespace inside a name is part of the name: runs of blanks, no-break and other Unicode spaces, blanks at the ends
+        words = ["Tank", "North", "Vent", "Out", "Bay", "7", "Main", "X"]
+        nm = r.choice(["  ", "   ", "\u00a0", " \u00a0", "\u2003", "\u3000", " \u2009 "]).join(r.choice(words) for _ in range(r.randrange(2, 4)))
+        return r.choice(["", "", " ", "  "]) + nm + r.choice(["", "", " ", "  "])
     return r.choice(["H", "A", "S", "(", ")", "a)", "HASH", "HASH(", "STR(x)", "x)", "ASH", "HS", "-1", "12", "$FF", "r0", "db", "sp", "Setting", "a.b", "a b"])
 
 
